@@ -1249,6 +1249,7 @@ class ConfigList(UserList):
            >>>
         """
 
+        exist_obj = None
         calling_fn_index = 1
         calling_filename = inspect.stack()[calling_fn_index].filename
         calling_function = inspect.stack()[calling_fn_index].function
@@ -1272,6 +1273,10 @@ class ConfigList(UserList):
 
         # Matches "IOSCfgLine", "NXOSCfgLine" and "ASACfgLine"... (and others)
         elif isinstance(exist_val, BaseCfgLine):
+            # an object that is still in this list names one position, not
+            # every line with similar text
+            if any(ii is exist_val for ii in self.data):
+                exist_obj = exist_val
             exist_val = exist_val.text
 
         else:
@@ -1311,7 +1316,7 @@ class ConfigList(UserList):
         all_idx = [
             idx
             for idx, list_obj in enumerate(self.data)
-            if re.search(exist_val, list_obj.text)
+            if (list_obj is exist_obj if exist_obj is not None else re.search(exist_val, list_obj.text))
         ]
         for idx in sorted(all_idx, reverse=True):
             # insert at idx - 0 implements 'insert_before()'...
@@ -1354,6 +1359,7 @@ class ConfigList(UserList):
         #            inserted_object = True
         #        return inserted_object
 
+        exist_obj = None
         calling_fn_index = 1
         calling_filename = inspect.stack()[calling_fn_index].filename
         calling_function = inspect.stack()[calling_fn_index].function
@@ -1377,6 +1383,10 @@ class ConfigList(UserList):
 
         # Matches "IOSCfgLine", "NXOSCfgLine" and "ASACfgLine"... (and others)
         elif isinstance(exist_val, BaseCfgLine):
+            # an object that is still in this list names one position, not
+            # every line with similar text
+            if any(ii is exist_val for ii in self.data):
+                exist_obj = exist_val
             exist_val = exist_val.text
 
         else:
@@ -1416,7 +1426,7 @@ class ConfigList(UserList):
         all_idx = [
             idx
             for idx, list_obj in enumerate(self.data)
-            if re.search(exist_val, list_obj._text)
+            if (list_obj is exist_obj if exist_obj is not None else re.search(exist_val, list_obj._text))
         ]
         for idx in sorted(all_idx, reverse=True):
             self.data.insert(idx + 1, new_obj)
